@@ -275,3 +275,21 @@ VARIANTS += [
     ("C13-interval-add-sub-swap", "C13", PARSER, "                return pendulum.interval(\n                    dt,\n                    dt.add(", "                return pendulum.interval(\n                    dt,\n                    dt.subtract(", "INTERVAL.assembly"),
     ("C13-rust-to-py", "C13", PARSER, "            days=parsed.days,\n            hours=parsed.hours,", "            days=parsed.hours,\n            hours=parsed.days,", "ATTRS.rust-to-py"),
 ]
+
+VARIANTS += [
+    ("C14-clean", "C14", None, "", "", None),
+    ("C14-pickle-nofold", "C14", DT, "        return (\n            functools.partial(self.__class__, fold=self.fold),\n            self._getstate(protocol),\n        )", "        return self.__class__, self._getstate(protocol)", "STATE-COMPLETE"),
+    ("C14-time-pickle-nofold", "C14", TIME, "        return (\n            functools.partial(self.__class__, fold=self.fold),\n            self._get_state(protocol),\n        )", "        return self.__class__, self._get_state(protocol)", "STATE-COMPLETE"),
+    ("C14-state-swap", "C14", DT, "            self.hour,\n            self.minute,\n            self.second,\n            self.microsecond,\n            self.tzinfo,\n        )", "            self.hour,\n            self.second,\n            self.minute,\n            self.microsecond,\n            self.tzinfo,\n        )", "STATE-COMPLETE"),
+    ("C14-state-tz", "C14", DT, "            self.microsecond,\n            self.tzinfo,\n        )\n\n    def __reduce__", "            self.microsecond,\n            self.tz,\n        )\n\n    def __reduce__", "STATE-COMPLETE"),
+    ("C14-deepcopy-tz", "C14", DT, "            tzinfo=self.tzinfo,\n            fold=self.fold,\n        )\n\n    def _cmp", "            tzinfo=self.tz,\n            fold=self.fold,\n        )\n\n    def _cmp", "DEEPCOPY.lossless"),
+    ("C14-deepcopy-nofold", "C14", DT, "            tzinfo=self.tzinfo,\n            fold=self.fold,\n        )\n\n    def _cmp", "            tzinfo=self.tzinfo,\n        )\n\n    def _cmp", "DEEPCOPY.state"),
+    ("C14-dur-deepcopy-weeks", "C14", DUR, "            hours=self.hours,\n            weeks=self.weeks,\n", "            hours=self.hours,\n", "STATE-COMPLETE"),
+    ("C14-dur-deepcopy-days", "C14", DUR, "        return self.__class__(\n            days=self.remaining_days,\n            seconds=self.remaining_seconds,\n            microseconds=self.microseconds,\n            minutes=self.minutes,\n            hours=self.hours,\n            weeks", "        return self.__class__(\n            days=self.days,\n            seconds=self.remaining_seconds,\n            microseconds=self.microseconds,\n            minutes=self.minutes,\n            hours=self.hours,\n            weeks", "STATE-COMPLETE"),
+    ("C14-dur-pickle-removed", "C14", DUR, "    def __reduce__(self) -> tuple[type[Self], tuple[int, ...]]:\n        return self.__class__, self._getstate()\n\n", "", "STATE-COMPLETE"),
+    ("C14-dur-state-order", "C14", DUR, "            self.minutes,\n            self.hours,\n            self.weeks,\n            self.years,\n            self.months,\n        )\n\n    def __reduce__", "            self.hours,\n            self.minutes,\n            self.weeks,\n            self.years,\n            self.months,\n        )\n\n    def __reduce__", "STATE-COMPLETE"),
+    ("C14-interval-deepcopy-removed", "C14", IV, "    def __deepcopy__(self, memo: dict[int, Self]) -> Self:  # type: ignore[override]\n        start, end, absolute = self._getstate()\n\n        return self.__class__(\n            copy.deepcopy(start, memo), copy.deepcopy(end, memo), absolute\n        )\n\n", "", "CTOR-LSP"),
+    ("C14-interval-state-noswap", "C14", IV, "        if self._invert and self._absolute:\n            end, start = start, end\n\n        return start, end, self._absolute", "        return start, end, self._absolute", "STATE-COMPLETE"),
+    ("C14-interval-state-abs", "C14", IV, "        return start, end, self._absolute\n", "        return start, end, False\n", "STATE-COMPLETE"),
+    ("C14-fixed-initargs", "C14", TZ, "        return self._offset, self._name", "        return self._offset, None", "STATE-COMPLETE"),
+]
